@@ -271,6 +271,18 @@ func checkC20(c *Ctx, r *Report) {
 				}
 			}
 		}
+		// a registered rule must not replace a built-in one: the tags were written against the
+		// library's documented semantics (url, email, filepath, oneof, ...)
+		var shadow []string
+		for k := range registered {
+			if known[k] {
+				shadow = append(shadow, k)
+			}
+		}
+		sort.Strings(shadow)
+		if len(shadow) > 0 {
+			viol = fmt.Sprintf("initValidator registers %v, which replaces the validator library's built-in rule of the same name: every config field tagged with it (e.g. baseUrl `url`, openIdConnectUrl) is now checked by gleece's own, possibly laxer, function - malformed values that the built-in rejects are accepted and analysis proceeds", shadow)
+		}
 		if nRules < 35 {
 			viol = fmt.Sprintf("only %d validation rules found in the configuration closure (floor 35)", nRules)
 		}
